@@ -91,6 +91,8 @@ def rand_segments(rng, nmax=6):
         c, i = rng.choice(CIDS) if rng.random() < 0.7 else (rng.randrange(256), rng.randrange(256))
         if k in 'FB':
             n = rng.choice(LEN_BIAS) if rng.random() < 0.8 else rng.randrange(0, 1001)
+            if nmax > 12:
+                n = rng.choice([0, 1, 2, 4, 8])
             p = rand_payload(rng, n)
             fr = bytearray(frame(c, i, p))
             if k == 'F':
@@ -123,6 +125,20 @@ def rand_segments(rng, nmax=6):
             kinds.append('junk-' + jk)
             prev_junk = True
     return segs, bytes(out), kinds
+
+
+def near_cids(c, i):
+    """class/id pairs that a sloppy key (shift, precedence, swap, truncation) would confuse with (c, i)"""
+    out = set()
+    for k in range(1, 8):
+        if i - k >= 0 and (c << k) < 256:
+            out.add((c << k, i - k))
+        if i + k < 256 and c % (1 << k) == 0:
+            out.add((c >> k, i + k))
+    out |= {(i, c), ((c + 1) % 256, i), (c, (i + 1) % 256), ((c + 16) % 256, i), (c, i ^ 0x80), (c ^ 0x80, i),
+            ((c + i) % 256, 0), (0, (c + i) % 256), (c ^ i, 0)}
+    out.discard((c, i))
+    return sorted(out)
 
 
 def rand_filter(rng, segs=()):
